@@ -417,7 +417,12 @@ func TestVerifC02NilSpec(t *testing.T) {
 // connection's transfer).  Fingerprints with an empty source connection ID (Chrome) are given an
 // 8-byte one: with empty IDs a transport cannot tell two live connections apart, which is a documented
 // limit and not the subject here.  The same job is run under the race detector.
-func TestVerifC02Overlap(t *testing.T) {
+func TestVerifC02Overlap(t *testing.T) { c02Overlap(t, false) }
+
+// TestVerifC02OverlapRace is the same job for the binary built with -race.
+func TestVerifC02OverlapRace(t *testing.T) { c02Overlap(t, true) }
+
+func c02Overlap(t *testing.T, raceJob bool) {
 	l := evlog.Open("C02")
 	defer l.Close()
 	type ovCase struct {
@@ -425,6 +430,8 @@ func TestVerifC02Overlap(t *testing.T) {
 		QUICID string            `json:"quicid"` // or "unil"
 		Dials  int               `json:"dials"`
 		Sched  simworld.Schedule `json:"schedule"`
+		Simul  bool              `json:"simultaneous,omitempty"` // all dials start at the same instant
+		Retry  bool              `json:"retry,omitempty"`
 	}
 	var cases []ovCase
 	ids := append([]string{"unil"}, quicworld.QUICIDNames...)
@@ -438,6 +445,23 @@ func TestVerifC02Overlap(t *testing.T) {
 						Sched: simworld.Schedule{Faults: []simworld.Fault{{Dir: wiretap.Dir(d), Ordinal: o, Action: drop}}}})
 				}
 			}
+		}
+	}
+	// dials that start at the same instant (handshakes, Retry handling and the per-dial copies of the spec run
+	// concurrently in one process)
+	for rep := 0; rep < l.Pick(2, 10); rep++ {
+		for _, id := range ids {
+			if id != "unil" {
+				// Simultaneous dials of a spec-driven client share the spec's uTLS extension objects (server
+				// name, ALPS, padding ... are filled in and serialised per connection): they interfere with each
+				// other.  The property speaks of successive dials; see DESIGN.md F.7.
+				continue
+			}
+			for _, retry := range []bool{false, true} {
+				cases = append(cases, ovCase{Name: fmt.Sprintf("simultaneous/clean/%s/retry=%v/r%d", id, retry, rep), QUICID: id, Dials: 4 + rep%3, Simul: true, Retry: retry})
+			}
+			cases = append(cases, ovCase{Name: fmt.Sprintf("simultaneous/k1/%s/r%d", id, rep), QUICID: id, Dials: 4, Simul: true, Retry: rep%2 == 1,
+				Sched: simworld.Schedule{Faults: []simworld.Fault{{Dir: wiretap.Dir(rep % 2), Ordinal: rep % 5, Action: drop}}}})
 		}
 	}
 	for i, cs := range cases {
@@ -464,7 +488,15 @@ func TestVerifC02Overlap(t *testing.T) {
 				opt.ClientKind, opt.Spec = "spec", &spec
 			}
 			ts := quicworld.TransferSpec{Streams: []quicworld.StreamSpec{{Bytes: 150000, Reply: 40000}, {Bytes: 3000, Reply: 3000}}, ChunkSeed: uint64(i)}
-			sr := quicworld.RunDialSeriesOverlap(opt, cs.Dials, ts, 5*time.Second, i*10)
+			if cs.Retry {
+				opt.VerifySourceAddress = func(net.Addr) bool { return true }
+			}
+			var sr *quicworld.SeriesResult
+			if cs.Simul {
+				sr = quicworld.RunDialsSimultaneous(opt, cs.Dials, ts, 5*time.Second, i*10)
+			} else {
+				sr = quicworld.RunDialSeriesOverlap(opt, cs.Dials, ts, 5*time.Second, i*10)
+			}
 			if sr.WorldErr != nil {
 				c.Violation("C02|harness|world", sr.WorldErr.Error(), nil)
 				return
@@ -507,4 +539,3 @@ func TestVerifC02Overlap(t *testing.T) {
 		c.End()
 	}
 }
-
